@@ -211,6 +211,8 @@ def _pure(e: ast.AST) -> bool:
         return _pure(e.value)
     if isinstance(e, (ast.Tuple, ast.List)):
         return all(_pure(x) for x in e.elts)
+    if isinstance(e, ast.Dict):
+        return all(isinstance(k, ast.Constant) for k in e.keys) and all(_pure(x) for x in e.values)
     return False
 
 
@@ -230,14 +232,23 @@ class _ConstMethods(ast.NodeTransformer):
     def visit_ClassDef(self, node: ast.ClassDef):
         self.generic_visit(node)
         consts: Dict[str, ast.AST] = {}
+        props: Dict[str, ast.AST] = {}
         for st in node.body:
+            if isinstance(st, ast.FunctionDef) and len(st.decorator_list) == 1 and isinstance(st.decorator_list[0], ast.Name) and st.decorator_list[0].id == "property" \
+                    and len(st.args.args) == 1 and not (st.args.vararg or st.args.kwarg or st.args.kwonlyargs or st.args.posonlyargs) \
+                    and self.defined.get(st.name, 0) == 1 and st.name.startswith("_"):
+                # a private read-only property whose whole body is `return <display of pure expressions>` (no setter: defined once)
+                body = [b for b in st.body if not (isinstance(b, ast.Expr) and isinstance(b.value, ast.Constant))]
+                if len(body) == 1 and isinstance(body[0], ast.Return) and isinstance(body[0].value, (ast.Tuple, ast.List, ast.Dict)) and _pure(body[0].value) \
+                        and (body[0].value.elts if not isinstance(body[0].value, ast.Dict) else body[0].value.keys):
+                    props[st.name] = (st.args.args[0].arg, body[0].value)
             if isinstance(st, ast.FunctionDef) and not st.decorator_list and len(st.args.args) == 1 and not (st.args.vararg or st.args.kwarg or st.args.kwonlyargs or st.args.posonlyargs):
                 body = [b for b in st.body if not (isinstance(b, ast.Expr) and isinstance(b.value, ast.Constant))]
                 if len(body) == 1 and isinstance(body[0], ast.Return) and isinstance(body[0].value, (ast.Tuple, ast.List)) and body[0].value.elts and _pure(body[0].value):
                     names = {x.id for x in ast.walk(body[0].value) if isinstance(x, ast.Name)}
                     if self.defined.get(st.name, 0) == 1 and st.name.startswith("_"):
                         consts[st.name] = (st.args.args[0].arg, body[0].value)
-        if not consts:
+        if not consts and not props:
             return node
         import copy
         outer = self
@@ -260,8 +271,21 @@ class _ConstMethods(ast.NodeTransformer):
                     return ast.copy_location(new, c)
                 return c
 
+            def visit_Attribute(self, a: ast.Attribute):
+                self.generic_visit(a)
+                if isinstance(a.ctx, ast.Load) and isinstance(a.value, ast.Name) and a.value.id == self.selfname and a.attr in props:
+                    pself, disp = props[a.attr]
+                    new = copy.deepcopy(disp)
+                    if pself != self.selfname:
+                        for x in ast.walk(new):
+                            if isinstance(x, ast.Name) and x.id == pself:
+                                x.id = self.selfname
+                    outer.inlined += 1
+                    return ast.copy_location(new, a)
+                return a
+
         for st in node.body:
-            if isinstance(st, _FUNCS) and st.args.args and st.name not in consts:
+            if isinstance(st, _FUNCS) and st.args.args and st.name not in consts and st.name not in props:
                 Repl(st.args.args[0].arg).visit(st)
         return node
 
